@@ -389,7 +389,8 @@ fn gen_kv_ops(r: &mut Rng, odd_keys: bool) -> Vec<Value> {
                     3 if odd_keys => format!("{}.brotli", hexd(r, 4)),
                     _ => hexd(r, 8),
                 };
-                let ext = *r.pick(&[".delta", ".pack", ".index", ""]);
+                // (upper-case twins of the extensions: suffix matching is byte-exact, not case-insensitive)
+                let ext = *r.pick(&[".delta", ".pack", ".index", "", ".delta", ".pack", ".DELTA", ".Pack", "xdelta"]);
                 let k = if r.chance(1, 5) && !keys.is_empty() { r.pick(&keys).clone() } else { format!("{}{}", stem, ext) };
                 let len = match r.below(12) {
                     0 | 1 => 0,
@@ -419,11 +420,14 @@ fn gen_kv_ops(r: &mut Rng, odd_keys: bool) -> Vec<Value> {
                     }
                 }
             }
-            8 => ops.push(json!(["l", *r.pick(&[".delta", ".pack", "", ".index", "a"])])),
+            // (suffixes with SQL LIKE wildcards and case twins: matching is literal)
+            8 => ops.push(json!(["l", *r.pick(&[".delta", ".pack", "", ".index", "a", "A", ".DELTA", "_delta", "%delta", ".de_ta", "%", "_"])])),
             _ => ops.push(json!(["reopen"])),
         }
     }
     ops.push(json!(["l", ".delta"]));
+    ops.push(json!(["l", "_delta"]));
+    ops.push(json!(["l", ".DELTA"]));
     ops.push(json!(["l", ""]));
     ops.push(json!(["dump"]));
     ops.push(json!(["reopen"]));
@@ -603,8 +607,19 @@ pub fn gen_requests(channel: &str, r: &mut Rng, count: usize) -> Vec<Value> {
         }
         "diff" => {
             while out.len() < count {
-                let a = small_seq(r, 4, 8, false);
-                let b = if r.chance(1, 2) {
+                // mostly short arrays over a tiny alphabet (repeats, empties); one in six long (16..70 elements,
+                // mostly distinct) so that size-dependent paths of the encoder are reached
+                let long = r.chance(1, 6);
+                let a = if long {
+                    let mut v = small_seq(r, 90, 70, true);
+                    while v.len() < 16 {
+                        v.push(Value::from(format!("f{}", v.len())));
+                    }
+                    v
+                } else {
+                    small_seq(r, 4, 8, false)
+                };
+                let b = if !long && r.chance(1, 2) {
                     small_seq(r, 4, 8, false)
                 } else {
                     // a small edit of a
@@ -615,7 +630,7 @@ pub fn gen_requests(channel: &str, r: &mut Rng, count: usize) -> Vec<Value> {
                             b.remove(i);
                         } else {
                             let i = r.below(b.len() + 1);
-                            b.insert(i, Value::from(format!("e{}", r.below(4))));
+                            b.insert(i, Value::from(format!("e{}", r.below(if long { 200 } else { 4 }))));
                         }
                     }
                     b
